@@ -153,15 +153,14 @@ mod verif_c03 {
     let banks = crate::cart::verif_ref_rom_banks(rom_code);
     let cell = if ip < 0x4000 { ip } else { (m.get_rom_bank() % banks) * 0x4000 + (ip & 0x3fff) };
     m.rom[cell] = kani::any();
-    let c = CodeCache::verif_new(64);
-    let seg = c.get_executable_memory_segment(ip, p as *const MemoryAreas);
+    // (the translator's own view is checked through translate_code_block itself in verif_c03_translate, so that this
+    // harness does not depend on the signature of the private helper it uses)
     let data = crate::mem::memory_read_byte(p as *const MemoryAreas, ip as u16);
     let fetch = crate::mem::get_executable_memory_slice(ip, p as *const MemoryAreas);
-    vassert!(seg.len() >= 1 && seg[0] == data, "C03.source.translator_reads_mapped_byte");
     vassert!(fetch[0] == data, "C03.source.fetch_reads_mapped_byte");
-    vassert!(seg.len() == fetch.len(), "C03.source.same_extent");
+    vassert!(fetch.len() == 0x4000 - (ip & 0x3fff), "C03.source.fetch_extent_ends_at_bank_boundary");
     kani::cover!(ip >= 0x4000, "reached");
-    core::mem::forget(m); core::mem::forget(c);
+    core::mem::forget(m);
   }
   macro_rules! src {
     ($name:ident, $k:expr) => {
@@ -176,4 +175,72 @@ mod verif_c03 {
   src!(c03_source_mbc1, 1);
   src!(c03_source_mbc3, 3);
   // VERIF-END verif_c03
+}
+
+#[cfg(all(kani, verif_c03))]
+mod verif_c03_translate {
+  use super::*;
+  use crate::vassert;
+  use crate::verif::vstub;
+  use crate::cart::Header;
+  use crate::decoder::ops::Op;
+
+  static mut SEEN: [u8; 6] = [0xf1, 0xf2, 0xf3, 0xf4, 0xf5, 0xf6];
+  static mut NSEEN: usize = 0x5a5a_0c0c_0c0c;
+  /// `decoder::decode` cut to "three one-byte instructions, then a terminator", recording the first byte it is shown.
+  fn mon_decode(instructions: &[u8]) -> (Op, usize, usize) {
+    unsafe {
+      let k = NSEEN;
+      if k < 6 { SEEN[k] = instructions[0]; }
+      NSEEN += 1;
+      if k < 3 { (Op::NoOp, 1, 4) } else { (Op::Halt, 1, 4) }
+    }
+  }
+  fn stub_encode_op(_e: &Emitter, _op: Op, _inc: usize, exec: &mut [u8]) -> usize { kani::assume(exec.len() >= 8); 8 }
+  fn stub_encode_epilogue(_e: &Emitter, exec: &mut [u8]) -> usize { kani::assume(exec.len() >= 3); 3 }
+
+  /// The translator is shown, instruction by instruction, the bytes that are mapped at that address NOW - also when a
+  /// block starting in the fixed bank runs across 0x3fff/0x4000 into the switchable bank.
+  fn translate_source(kind: u8) {
+    let cart_type = if kind == 1 { let s: u8 = kani::any(); kani::assume(s >= 1 && s <= 3); s } else { let s: u8 = kani::any(); kani::assume(s >= 0x11 && s <= 0x13); s };
+    let rom_code: u8 = kani::any();
+    let h = Header::verif_with(cart_type, rom_code, 0);
+    let mut m = crate::mem::verif_areas(&h);
+    let p = &mut m as *mut MemoryAreas;
+    crate::mem::memory_write_byte(p, 0x2000, kani::any());
+    crate::mem::memory_write_byte(p, 0x4000, kani::any());
+    crate::mem::memory_write_byte(p, 0x6000, kani::any());
+    let banks = crate::cart::verif_ref_rom_banks(rom_code);
+    let hi = (m.get_rom_bank() % banks) * 0x4000;
+    let vals: [u8; 4] = kani::any();
+    m.rom[0x3ffe] = vals[0]; m.rom[0x3fff] = vals[1]; m.rom[hi] = vals[2]; m.rom[hi + 1] = vals[3];
+    let want = [crate::mem::memory_read_byte(p as *const MemoryAreas, 0x3ffe), crate::mem::memory_read_byte(p as *const MemoryAreas, 0x3fff),
+                crate::mem::memory_read_byte(p as *const MemoryAreas, 0x4000), crate::mem::memory_read_byte(p as *const MemoryAreas, 0x4001)];
+    let mut c = CodeCache::verif_new(0x400);
+    unsafe { NSEEN = 0; }
+    let _ = c.translate_code_block(&m.rom, 0x3ffe, p as *const MemoryAreas);
+    let (n, seen) = unsafe { (NSEEN, SEEN) };
+    vassert!(n == 4, "C03.translate.block_cut_at_terminator");
+    vassert!(seen[0] == want[0] && seen[1] == want[1], "C03.translate.reads_fixed_bank");
+    vassert!(seen[2] == want[2] && seen[3] == want[3], "C03.translate.reads_mapped_bank_across_boundary");
+    kani::cover!(hi != 0x4000, "reached");
+    core::mem::forget(m); core::mem::forget(c);
+  }
+  macro_rules! ts {
+    ($name:ident, $k:expr) => {
+      #[kani::proof]
+      #[kani::unwind(8)]
+      #[kani::stub(crate::system::get_rom_buffer, vstub::stub_get_rom_buffer)]
+      #[kani::stub(crate::mem::create_buffer, vstub::stub_create_buffer)]
+      #[kani::stub(crate::devices::video::lcd::LCD::new, vstub::stub_lcd_new)]
+      #[kani::stub(crate::cache::linux::apply_protection, crate::cache::linux::verif_apply_protection_noop)]
+      #[kani::stub(crate::decoder::decode, mon_decode)]
+      #[kani::stub(crate::emitter::x86_64::Emitter::encode_op, stub_encode_op)]
+      #[kani::stub(crate::emitter::x86_64::Emitter::encode_epilogue, stub_encode_epilogue)]
+      fn $name() { translate_source($k); }
+    };
+  }
+  ts!(c03_translate_source_mbc1, 1);
+  ts!(c03_translate_source_mbc3, 3);
+  // VERIF-END verif_c03_translate
 }
